@@ -583,8 +583,27 @@ def _callsites_pass(ctx, fi, p, rule):
     for f2 in ctx.repo.funcs.values():
         for c in walk_local(f2.node):
             if isinstance(c, ast.Call) and (dotted(c.func) or '').split('.')[-1] == cls:
-                passed = len(c.args) > idx or any(k.arg == p or k.arg is None for k in c.keywords)
+                passed = len(c.args) > idx or any(k.arg == p for k in c.keywords)
                 site = f"{f2.qualname} -> {cls}(...)"
+                stars = [k.value for k in c.keywords if k.arg is None]
+                if not passed and stars:
+                    # **d passes p only if d always has the key: a dict that is rebuilt through a filter
+                    # (`{k: v for k, v in d.items() if v is not None}`) may lack it
+                    filtered = None
+                    for sv in stars:
+                        if isinstance(sv, ast.Name):
+                            for a_ in walk_local(f2.node):
+                                if isinstance(a_, ast.Assign) and norm(a_.targets[0]) == sv.id and isinstance(a_.value, ast.DictComp) \
+                                        and a_.value.generators and a_.value.generators[0].ifs:
+                                    filtered = a_
+                    if filtered is not None:
+                        ctx.violation(rule, f"{site} omits {p}",
+                                      f"`{norm(filtered)[:70]}` drops unset entries before `{cls}(**{norm(stars[0])})`: when {p} is not set, "
+                                      f"{cls} falls back to its parameter default, which was bound to MasterConfig.{p} ONCE at import - "
+                                      f"later changes of MasterConfig are ignored on this route (and .preprocess() disagrees with .parse())",
+                                      key=f"{rule}|{f2.qualname}|{cls}|{p}", where=common.loc(f2, c))
+                        continue
+                    passed = True
                 if passed:
                     ctx.ok(rule, f"{site} passes {p}")
                 elif f2.qualname == 'PLSSDesc.deduce_layout':
